@@ -517,6 +517,9 @@ def erase_tasks():
                         nf = (lambda rec_, t_: (lambda st: {"recursive": rec_, "test": emit.make_node(st, N.Expr, "node.test", kind="expr") if t_ else None}))(rec, has_test)
                         ts.append(EraseTask(nm, mode, wrap, configure=configure_erase, node_fields=nf, buffers=(buf,),
                                             label=f"recursive={rec},test={has_test},buffer={buf}", offset=k * 20000))
+                        # the two slowest configurations (loop filter + buffered frame) run in the thorough tier only; the quick tier
+                        # keeps the same visitor paths with frame.buffer None and the buffered frame without a loop filter
+                        ts[-1].thorough_only = bool(has_test and buf)
                         k += 1
             continue
         ts.append(EraseTask(nm, "expr" if wrap else mode, wrap, configure=configure_erase))
@@ -1191,7 +1194,11 @@ def native_dispatch(w=None):
             ctx = env.from_string("").new_context({})
             pa = _PassArg.from_obj(wrapper)
             first = {_PassArg.environment: env, _PassArg.context: ctx, _PassArg.eval_context: ctx.eval_ctx}[pa]
-            r = clone(first, "v", 1, k=2)
+            try:
+                r = clone(first, "v", 1, k=2)
+            except Exception as ex:  # noqa
+                problems.append(f"{name} (async={is_async}): wrapper raised {type(ex).__name__}: {ex}")
+                continue
             need = cells["need_eval_context"]
             want_args = ("v", 1) if need else (first, "v", 1)
             want = ("async" if is_async else "sync", want_args, {"k": 2})
@@ -1409,6 +1416,8 @@ def entry_check(name):
         if okg:
             ab = ab[1:]
 
+    params = {a.arg for a in fs.args.posonlyargs + fs.args.args + fs.args.kwonlyargs + [y for y in (fs.args.vararg, fs.args.kwarg) if y]}
+
     def nf(stmts, erase):
         m = ast.Module(body=copy.deepcopy(stmts), type_ignores=[])
         m = _strip_annotations(m)
@@ -1416,6 +1425,19 @@ def entry_check(name):
             m = Erase().visit(m)
         m = Norm().visit(m)
         m = EntryNorm().visit(m)
+        # local variable names are immaterial: rename them in order of first assignment
+        order = []
+        for n in ast.walk(m):
+            pass
+        class Collect(ast.NodeVisitor):
+            def visit_Name(self, n):
+                if isinstance(n.ctx, ast.Store) and n.id not in params and n.id not in order:
+                    order.append(n.id)
+        Collect().visit(m)
+        ren = {nm: f"_local{i}" for i, nm in enumerate(order)}
+        for n in ast.walk(m):
+            if isinstance(n, ast.Name) and n.id in ren:
+                n.id = ren[n.id]
         ast.fix_missing_locations(m)
         return ast.unparse(m)
 
